@@ -420,6 +420,7 @@ type violation struct {
 	Detail string          `json:"detail"`
 	Replay json.RawMessage `json:"replay"`
 	Count  int64           `json:"count"`
+	Part   int             `json:"part,omitempty"` // index into the check's parts (0 = the main binary)
 }
 
 type shardResult struct {
@@ -527,34 +528,56 @@ func cmdCheck(id, tier string) int {
 		die(2, "unknown property %q", id)
 	}
 	t0 := time.Now()
-	bin, err := buildBin(c.bin)
-	if err != nil {
-		fmt.Fprintln(os.Stderr, err)
-		return 2
+	// a check may consist of several parts (binaries); every part is sharded on its own and all results are merged
+	all := append([]*check{c}, c.parts...)
+	bins := make([]string, len(all))
+	for i, pc := range all {
+		b, err := buildBin(pc.bin)
+		if err != nil {
+			fmt.Fprintln(os.Stderr, err)
+			return 2
+		}
+		bins[i] = b
 	}
-	nshards, budget := c.quickShards, c.quickBudget
-	if tier == "thorough" {
-		nshards, budget = c.thoroughShards, c.thoroughBudget
-	}
-	if nshards < 1 {
-		nshards = 1
-	}
-	if budget <= 0 {
-		budget = 120
+	type job struct{ part, shard, n int }
+	var jobs []job
+	budget := 0.0
+	for pi, pc := range all {
+		nshards, b := pc.quickShards, pc.quickBudget
+		if tier == "thorough" {
+			nshards, b = pc.thoroughShards, pc.thoroughBudget
+		}
+		if nshards < 1 {
+			nshards = 1
+		}
+		if b <= 0 {
+			b = 120
+		}
+		if b > budget {
+			budget = b
+		}
+		for i := 0; i < nshards; i++ {
+			jobs = append(jobs, job{pi, i, nshards})
+		}
 	}
 	if s := os.Getenv("VERIF_BUDGET_OVERRIDE"); s != "" {
 		budget, _ = strconv.ParseFloat(s, 64)
 	}
-	results := make([]*shardResult, nshards)
-	errs := make([]error, nshards)
-	outs := make([]string, nshards)
+	results := make([]*shardResult, len(jobs))
+	errs := make([]error, len(jobs))
+	outs := make([]string, len(jobs))
 	var wg sync.WaitGroup
-	for i := 0; i < nshards; i++ {
+	for i, j := range jobs {
 		wg.Add(1)
-		go func(i int) {
+		go func(i int, j job) {
 			defer wg.Done()
-			results[i], outs[i], errs[i] = runShard(c, bin, tier, i, nshards, "", budget)
-		}(i)
+			results[i], outs[i], errs[i] = runShard(all[j.part], bins[j.part], tier, j.shard, j.n, "", budget)
+			if results[i] != nil {
+				for k := range results[i].Violations {
+					results[i].Violations[k].Part = j.part
+				}
+			}
+		}(i, j)
 	}
 	wg.Wait()
 	for i, e := range errs {
@@ -604,8 +627,11 @@ func cmdCheck(id, tier string) int {
 				m.Notes = append(m.Notes, a)
 			}
 		}
-		if r.Rule != "" {
-			m.Rule = r.Rule
+		if r.Rule != "" && !strings.Contains(m.Rule, r.Rule) {
+			if m.Rule != "" {
+				m.Rule += " || "
+			}
+			m.Rule += r.Rule
 		}
 		for i := range r.Violations {
 			v := r.Violations[i]
@@ -642,7 +668,7 @@ func cmdCheck(id, tier string) int {
 		dir := filepath.Join(verifDir, "replays", id)
 		os.MkdirAll(dir, 0o755)
 		path := filepath.Join(dir, sigFile(s)+".json")
-		art, _ := json.MarshalIndent(map[string]any{"property": id, "tier": tier, "sig": v.Sig, "detail": v.Detail, "replay": v.Replay, "count": v.Count}, "", " ")
+		art, _ := json.MarshalIndent(map[string]any{"property": id, "tier": tier, "sig": v.Sig, "detail": v.Detail, "replay": v.Replay, "count": v.Count, "part": v.Part}, "", " ")
 		os.WriteFile(path, art, 0o644)
 		reproduced := 0
 		const tries = 5
@@ -656,7 +682,7 @@ func cmdCheck(id, tier string) int {
 			reproduced = tries
 		} else {
 			for i := 0; i < tries; i++ {
-				r, _, err := runShard(c, bin, tier, 0, 1, path, 120)
+				r, _, err := runShard(all[v.Part], bins[v.Part], tier, 0, 1, path, 120)
 				if err == nil && r.Replayed != nil && *r.Replayed {
 					reproduced++
 				}
@@ -767,6 +793,7 @@ func cmdReplay(path string) int {
 		Property string `json:"property"`
 		Tier     string `json:"tier"`
 		Sig      string `json:"sig"`
+		Part     int    `json:"part"`
 	}
 	if err := json.Unmarshal(b, &f); err != nil {
 		die(2, "%v", err)
@@ -774,6 +801,9 @@ func cmdReplay(path string) int {
 	c, ok := registry[f.Property]
 	if !ok {
 		die(2, "unknown property %q in replay file", f.Property)
+	}
+	if f.Part > 0 && f.Part <= len(c.parts) {
+		c = c.parts[f.Part-1]
 	}
 	bin, err := buildBin(c.bin)
 	if err != nil {
